@@ -29,40 +29,22 @@ Theorem C07_export_replicate_roundtrip :
 Proof. exact export_replicate_roundtrip. Qed.
 Print Assumptions C07_export_replicate_roundtrip.
 
-(* replica_prefix, for the code with the tx holder's BlRoot cleared (c_stale = false, the proposed
-   repair): for EVERY primary history and EVERY finite schedule of deliveries of unaltered exports
-   (any order, duplicates, retries, with or without integrity check), allowances, discards and
-   restarts, the replica's committed and precommitted histories are prefixes of the primary's,
-   with identical Alh values. *)
+(* replica_prefix: for EVERY primary history and EVERY finite schedule of deliveries of unaltered
+   exports (any order, duplicates, retries, with or without integrity check, values truncated or not),
+   allowances, discards and restarts, the replica's committed and precommitted histories are prefixes
+   of the primary's, with identical Alh values.
+   (Until /repo commit 7c27871 this was refuted: performPrecommit left the BlRoot of the pooled tx
+   holder's previous use in a header with BlTxID = 0; deliver tx 1, deliver tx 2,
+   DiscardPrecommittedTxsSince(1), deliver tx 1 gave a transaction 1 with another Alh.  The harness
+   runs that schedule on every check; Repl/Witness.v stale_schedule_repaired is the model's run.) *)
 Theorem C07_replica_prefix :
   forall (H : bytes -> bytes) (c : cfg) (P : list txrec) (acts : list action),
-    c_stale c = false -> primary_valid H P = true ->
+    primary_valid H P = true ->
     let st := run H c P acts in
     is_prefix P (chain st) /\ is_prefix P (s_com st) /\
     map t_alh (chain st) = map t_alh (firstn (length (chain st)) P).
 Proof. exact replica_prefix. Qed.
 Print Assumptions C07_replica_prefix.
-
-(* ... and it is REFUTED on the code as found (c_stale = true: performPrecommit leaves the BlRoot of
-   the holder's previous transaction in a header with BlTxID = 0): deliver tx 1, deliver tx 2,
-   DiscardPrecommittedTxsSince(1), deliver tx 1 again -- every export unaltered -- and the replica
-   holds a transaction 1 whose Alh is not the primary's: Repl/Witness.v, replica_prefix_refuted
-   (a vm_compute witness with the executable SHA-256, whose primitive 63-bit integers Print
-   Assumptions lists; for that reason it is compiled with this file but not restated here).
-   Known finding, replayed by the harness on every run. *)
-
-
-(* what survives on the code as found: every schedule WITHOUT DiscardPrecommittedTxsSince, for
-   primary histories linked the way performPrecommit links them (BlTxID = 0 for tx 1 only). *)
-Theorem C07_replica_prefix_partial :
-  forall (H : bytes -> bytes) (c : cfg) (P : list txrec) (acts : list action),
-    primary_valid H P = true -> linked P = true ->
-    forallb (fun a => negb (is_discard a)) acts = true ->
-    let st := run H c P acts in
-    is_prefix P (chain st) /\ is_prefix P (s_com st) /\
-    map t_alh (chain st) = map t_alh (firstn (length (chain st)) P).
-Proof. exact replica_prefix_partial. Qed.
-Print Assumptions C07_replica_prefix_partial.
 
 (* altered_rejected ("every alteration of the exported bytes is rejected, or yields the primary's
    Alh, or exhibits a collision") is REFUTED: Repl/Witness.v, altered_rejected_refuted -- one flipped
@@ -91,7 +73,6 @@ Theorem C07_altered_rejected_partial :
     h_prevalh (t_hdr p) = last_alh H (firstn j P) ->
     h_blroot (t_hdr p) = (if 0 <? h_bltxid (t_hdr p)
                           then root_at H (h_bltxid (t_hdr p)) (map t_alh (firstn j P)) else zeros32) ->
-    (c_stale c = false \/ 0 < h_bltxid (t_hdr p) \/ s_hold st = zeros32) ->
     repl_parse b = Ok (hdr, xes, tr) ->
     h_ts hdr = h_ts (t_hdr p) -> h_version hdr = h_version (t_hdr p) ->
     opt_md_bytes (h_md hdr) = opt_md_bytes (h_md (t_hdr p)) -> h_bltxid hdr = h_bltxid (t_hdr p) ->
